@@ -33,7 +33,7 @@ def rule_launch_gated(ctx: Ctx, out: Collector) -> None:
                 continue
             seen.add(cons)
             n += 1
-            exits = _wait_exits(g, wait)
+            exits = _wait_exits(g, wait) if wait is not None else set()
             tsucc = [m for m, lab in g.succ[lp.id] if lab == 'T']
             spawns = [m for m in region if g.evs[m].kind == 'call' and ctx.roles.spawn(g.evs[m])]
             bad = None
@@ -166,6 +166,11 @@ def rule_switch_indirection(ctx: Ctx, out: Collector) -> None:
                         for t in FuncEnv.of(ctx.p, i.unit).resolve_call(c):
                             if t[0] == 'ext' and t[1].endswith('.predecessors'):
                                 raw = True
+                            # an accessor of the DAG that returns the graph's predecessors
+                            if t[0] in ('func',) and t[1].cls is not ctx.manager_class() and _returns_raw_predecessors(ctx, t[1]):
+                                raw = True
+                            if t[0] == 'proto' and 'predecessors' in t[2]:
+                                raw = True
             if not raw:
                 continue
             # the switch resolver itself (writes switch_results) is not a consumer
@@ -211,6 +216,16 @@ def rule_switch_indirection(ctx: Ctx, out: Collector) -> None:
         raise AnalysisError(f'only {n} predecessor loops found (SW-3 anchors vanished)')
 
 
+def _returns_raw_predecessors(ctx: Ctx, unit: FuncUnit) -> bool:
+    env = FuncEnv.of(ctx.p, unit)
+    for n in env.own_nodes():
+        if isinstance(n, ast.Call):
+            for t in env.resolve_call(n):
+                if t[0] == 'ext' and t[1].endswith('.predecessors'):
+                    return True
+    return False
+
+
 def _all_values(ctx: Ctx, expr: ast.AST, unit: FuncUnit, inst=None, depth: int = 0):
     """Every expression a (possibly wrapped: list(...), enumerate(...), a if c else b) iterable may
     come from."""
@@ -239,7 +254,8 @@ def rule_kwargs_from_edges(ctx: Ctx, out: Collector) -> None:
     target = None
     for m in mgr.methods.values():
         src = unparse(m.node)
-        if 'kwarg_name' in src and 'input_kwargs' in src:
+        has_ret_dict = any(isinstance(n, ast.Return) and isinstance(n.value, ast.Name) for n in ast.walk(m.node))
+        if 'EdgeField.kwarg_name' in src and has_ret_dict and not m.is_async:
             target = m
     if target is None:
         raise AnalysisError('argument builder (kwarg_name / input_kwargs) not found (RD-3b/RD-4 anchor vanished)')
@@ -358,15 +374,69 @@ def rule_filtered_view(ctx: Ctx, out: Collector) -> None:
                     if {'filter_edge', 'filter_node'} <= kws:
                         is_view = True
                         views.append((e, i))
+            props = {'C09', 'C11'}
+            if isinstance(e, ast.Call) and any(t[0] == 'ext' and t[1].endswith('subgraph_view')
+                                               for t in FuncEnv.of(ctx.p, i.unit).resolve_call(e)):
+                kws_ = {k.arg for k in e.keywords}
+                props = set()
+                if 'filter_edge' not in kws_:
+                    props |= {'C09', 'C11'}
+                if 'filter_node' not in kws_:
+                    props |= {'C10'}
             if is_view:
                 out.ok('SW-1', cons, ev.where(), 'cut from nx.subgraph_view(graph, filter_edge=..., filter_node=...)')
             else:
                 out.bad('SW-1', cons, ev.where(),
                         f'the sub-dag is cut from {unparse(e)[:80]} instead of the filtered view: case_branch edges and untried one-of '
                         f'candidates are not removed, so nodes needed only by a non-selected case / a later candidate are executed',
-                        props={'C09', 'C11'})
-    if n < 2:
-        raise AnalysisError(f'only {n} sub-dag constructions found (SW-1 anchors vanished)')
+                        props=props)
+    if n < 1:
+        raise AnalysisError(f'no sub-dag construction found (SW-1 anchors vanished)')
+    # RC-6: the dag of a recurrent re-iteration is also the set of nodes that is re-armed; it must contain the
+    # case nodes of the switches inside it, i.e. it must not be cut from a view that drops case_branch edges
+    seen6 = set()
+    n6 = 0
+    for fid, g in list(ctx.run_graphs().items()):
+        for ev in g.events('call'):
+            tg = [t for t in ev.info.get('targets', ()) if t[0] == 'func' and t[1].fid in connect]
+            if not tg:
+                continue
+            c = ev.node
+            rec = next((k.value for k in c.keywords if k.arg == 'is_recurrent'), None)
+            if rec is None:
+                continue
+            rt = sym.term(ctx.p, rec, ev.inst)
+            if rt != ('const', True):
+                continue
+            site = ev
+            inst = ev.inst
+            while inst.parent is not None and inst.unit.cls is ctx.manager_class() and inst.parent.unit.cls is ctx.manager_class() \
+                    and not inst.unit.is_async:
+                for cand in g.evs:
+                    if cand.kind == 'call' and cand.info.get('callee') is inst:
+                        site = cand
+                        break
+                inst = inst.parent
+            cons = ctx.construct(site) + ' [recurrent dag keeps the case nodes it must re-arm]'
+            if cons in seen6:
+                continue
+            seen6.add(cons)
+            n6 += 1
+            garg = c.args[0] if c.args else next((k.value for k in c.keywords if k.arg in ('dag', 'graph', 'G')), None)
+            e, i = sym.resolve_value(ctx.p, garg, ev.inst)
+            drops_cases = False
+            if isinstance(e, ast.Call) and any(t[0] == 'ext' and t[1].endswith('subgraph_view')
+                                               for t in FuncEnv.of(ctx.p, i.unit).resolve_call(e)):
+                drops_cases = any(k.arg == 'filter_edge' for k in e.keywords)
+            if drops_cases:
+                out.bad('RC-6', cons, site.where(),
+                        'the dag of the recurrent re-iteration is cut from the view without case_branch edges: the case nodes of a '
+                        'switch inside the subgraph are neither re-armed nor re-executed, so from the second iteration on the '
+                        'consumer of the switch is released with the case value of a superseded iteration', props={'C03', 'C11', 'C09'})
+            else:
+                out.ok('RC-6', cons, site.where(), 'cut from a graph that still contains the case_branch edges')
+    if n6 == 0:
+        raise AnalysisError('no recurrent sub-dag construction found (RC-6 anchor vanished)')
     # the filters themselves, evaluated over the finite attribute domain
     for e, i in views[:1]:
         kw = {k.arg: k.value for k in e.keywords}
